@@ -120,7 +120,8 @@ KINDS = {k[0]: Kind(*k) for k in _K}
 # ------------------------------------------------------------------ value generators
 MARK = "Zq9Xj"          # distinctive token put into every generated value (C08 searches for leftovers)
 SIZES = {"tiny": [0, 1, 5, 40], "mid": [254, 255, 256, 1000, 4000, 4096, 5000], "huge": [65000, 70000, 200000]}
-UNI = ["", "x", "äö", "\U0001F600ä=e", "a=b", "あい", "tab\there", "\U00010400"]
+# incl. text whose UTF-16 form has 00 00 across code-unit boundaries (U+4E00 after / before ASCII, twice) and code units with a 0x0A byte
+UNI = ["", "x", "äö", "\U0001F600ä=e", "a=b", "あい", "tab\there", "\U00010400", "1\u4e002\u4e00", "\u4e001\u4e002", "\u4e0a\u010a"]
 
 
 def text(rng, sizeclass):
